@@ -277,6 +277,10 @@ func (c *EvalCtx) objTerm(o types.Object) Term {
 		// package-level variable
 		s := v.decls.sortOf(o.Type())
 		name := "G_" + o.Pkg().Name() + "_" + o.Name()
+		if ct, ok := v.constGlobals[name]; ok {
+			ct.T = o.Type()
+			return ct
+		}
 		return mkTerm(c.heapVar(name, s), s, o.Type())
 	}
 	fail("unsupported object %v", o)
@@ -437,7 +441,11 @@ func typeShort(n *types.Named) string {
 }
 
 func (v *Verifier) fieldHeapName(n *types.Named, f *types.Var) string {
-	return "F_" + typeShort(n) + "_" + f.Name()
+	name := "F_" + typeShort(n) + "_" + f.Name()
+	if isRefType(f.Type()) && namedString(f.Type()) != "time.Time" {
+		v.heapIsRef[name] = "field"
+	}
+	return name
 }
 
 func (v *Verifier) embFunc(n *types.Named, f *types.Var) string {
@@ -458,7 +466,11 @@ func (c *EvalCtx) mapArrays(mt *types.Map) (dom, val, ln string, ks, vs string) 
 }
 
 func (v *Verifier) mapTypeName(mt *types.Map) string {
-	return mangleSort(v.decls.sortOf(mt.Key())) + "__" + typeMangle(mt.Elem())
+	n := mangleSort(v.decls.sortOf(mt.Key())) + "__" + typeMangle(mt.Elem())
+	if isRefType(mt.Elem()) {
+		v.heapIsRef["MV_"+n] = "mapval:" + v.decls.sortOf(mt.Key())
+	}
+	return n
 }
 
 // typeMangle gives a name for the element type that distinguishes pointer targets (so that
